@@ -162,6 +162,17 @@ def prove(pid):
             "cmd": f"make -C coq (full .vo build) && coqc -R . PV Properties/{pid}.v  [Print Assumptions under every theorem]"}
 
 
+def coqchk(pid):
+    """Independent re-check of the compiled property file and everything it depends on (thorough tier); reports the axioms coqchk lists."""
+    t0 = time.time()
+    r = sh(["timeout", "1800", "coqchk", "-silent", "-o", "-R", ".", "PV", "PV.Properties." + pid], cwd=COQ)
+    out = r.stdout + r.stderr
+    m = re.search(r"\* Axioms:(.*?)\n\s*\n\* Constants/Inductives relying on type-in-type:(.*?)\n\s*\n\* Constants/Inductives relying on unsafe \(co\)fixpoints:(.*?)\n\s*\n\* Inductives whose positivity is assumed:(.*?)\n", out, re.S)
+    fields = [x.strip() for x in m.groups()] if m else None
+    ok = r.returncode == 0 and fields is not None and all(x == "<none>" for x in fields)
+    return {"ok": ok, "axioms": fields[0] if fields else "?", "summary": fields, "wall": round(time.time() - t0, 1), "log": out[-1500:] if not ok else ""}
+
+
 # ------------------------------------------------------------------------------------------------ running cases
 
 def run_model(cases):
@@ -362,6 +373,11 @@ def run_check(pid, tier, seed, replay=None):
         else:
             notes.append(f"known finding {f['id']} did not reproduce on this run (its witness no longer fails)")
 
+    chk = None
+    if tier == "thorough" and proof["ok"] and not replay:
+        chk = coqchk(pid)
+        if not chk["ok"]:
+            violations.append({"kind": "coqchk", "why": "coqchk -o does not confirm the property file axiom-free: %s %s" % (chk["summary"], chk["log"][-500:]), "no_failing_input": True})
     if bad:
         violations.append({"kind": "forbidden-construct", "why": "; ".join(bad[:5]), "no_failing_input": True})
     if not proof["ok"]:
@@ -395,7 +411,7 @@ def run_check(pid, tier, seed, replay=None):
             "evaluations": len(cases) + extra_evals, "distinct_nontrivial": len(nontrivial),
             "rule": getattr(mod, "RULE", "generated cases; non-trivial = the implementation returned a value rather than its rejection"),
             "streams": streams, "traces_validated_against_impl": len(model_idx),
-            "kernel_reevaluated": kernel, "known_finding_instances": known_hits,
+            "kernel_reevaluated": kernel, "coqchk": chk, "known_finding_instances": known_hits,
             "samples": list(samples.values())[:12], "exhaustive": False, "notes": notes,
         },
         "assumptions": list(getattr(mod, "ASSUMPTIONS", [])) + ["model tied to the code only through the correspondence run recorded here"],
